@@ -18,9 +18,9 @@ def _rerun(mode_args):
     return f
 
 
-def _job(ctx, name, trace, replay, inv=("PreOK",)):
+def _job(ctx, name, trace, replay, inv=("PreOK",), attempts=1, rerun=None):
     return runner.TraceJob(name, "AllocTrace", trace, {"Lens": core.tla_set([ctx.prop])}, invariants=inv,
-                           chunk=40000, replay=replay)
+                           chunk=40000, replay=replay, attempts=attempts, rerun=rerun)
 
 
 def _stats(paths):
@@ -149,7 +149,7 @@ def check(ctx):
     for name, args in runs:
         t = os.path.join(wd, name + ".ndjson")
         core.run_harness(h, ["alloc"] + args + ["-out", t], wd)
-        runner.run_job(ctx, _job(ctx, name, t, _replay_seq))
+        runner.run_job(ctx, _job(ctx, name, t, _replay_seq, rerun=_rerun([str(a) for a in args])))
         paths.append(t)
     st = _stats(paths)
     conc = {}
@@ -162,10 +162,10 @@ def check(ctx):
         t = os.path.join(wd, "conc.ndjson")
         args = ["-mode", "conc", "-rounds", rounds, "-seed", ctx.seed]
         core.run_harness(h, ["alloc"] + args + ["-out", t], wd)
-        runner.run_job(ctx, _job(ctx, "conc", t, _rerun(args), inv=()))
+        runner.run_job(ctx, _job(ctx, "conc", t, _rerun(args), inv=(), attempts=6))
         conc = {"concurrent_rounds_16_goroutines": rounds, "exclusion_probes": 4}
     st.update(conc)
-    st["binding_selftest"] = selftest(ctx, paths[0])
+    st["binding_selftest"] = selftest(ctx, paths[0]) if not ctx.violations else {"skipped": "violations reported"}
     ctx.trusted += ["harness/alloc.go: net.IPNet -> block index / alignment / containment with math/big",
                     "TLC evaluation of AllocTrace guards"]
     ctx.assumptions += ["pools of at most 1000 blocks (a 2^32-address IPv4 range is outside the bounds used)",
